@@ -34,9 +34,13 @@ FN_ALIGN = "Alignment.align_molecules"
 FN_CLASS = "Alignment"
 
 C_RETURNS = "ensures.returns_without_exception"
-C_START_TR = "ensures.larger_start_only_translated_onto_end_centre"
+C_START_TR = "ensures.larger_start_only_translated"
 C_END_UNT = "ensures.larger_end_untouched"
-C_EARLY = "ensures.one_atom_end_start_only_translated_end_untouched"
+# informational (NOT demanded by the statement: a mismatch is reported as "undecided", never as a violation)
+I_CENTRE = "info.start_translated_onto_end_centre"
+I_EARLY_END = "info.one_atom_end_untouched"
+I_LABELS = "info.residue_labels_and_atom_ids_unchanged"
+INFORMATIONAL = (I_CENTRE, I_EARLY_END, I_LABELS)
 C_BONDS = "ensures.mobile_bonded_distances_preserved_acyclic"
 C_RIGID = "ensures.mobile_all_pairwise_distances_preserved_without_single_atom_moves"
 C_NAMES = "ensures.atom_order_and_names_unchanged"
@@ -46,13 +50,15 @@ C_CALLER = "frame.caller_molecules_unmodified"
 
 EXPECT = {
     C_RETURNS: "align_molecules returns (the statement demands a result for every input of the quantifier)",
-    C_START_TR: "start has at least as many atoms as end: start_after == start_before + (centre(end_before) - centre(start_before)) "
-                "for every atom (one common vector, 1e-9)",
+    C_START_TR: "start has at least as many atoms as end (also a one-atom end): start_after == start_before + one common vector "
+                "for every atom (1e-9); which vector is not fixed by the statement",
     C_END_UNT: "end has more atoms than start: end coordinates bit-identical to the input",
-    C_EARLY: "end has one atom: start_after == start_before + (end - centre(start_before)) to 1e-9 and end bit-identical",
+    I_CENTRE: "(informational) the common vector is centre(end_before) - centre(start_before) to 1e-9",
+    I_EARLY_END: "(informational) a one-atom end molecule is bit-identical after the early return",
+    I_LABELS: "(informational) residue names, residue numbers and atom ids of Alignment.start/.end equal the input files', atom by atom",
     C_BONDS: "every bonded distance of the mobile (smaller; ties: end) molecule equals its initial value to 1e-9 (its bond graph is acyclic)",
     C_RIGID: "deformation type 2 not selected: every pairwise distance of the mobile molecule equals its initial value to 1e-9",
-    C_NAMES: "names, residue names, residue numbers, atom ids and atom count of Alignment.start/.end equal the input files', atom by atom",
+    C_NAMES: "atom count and the sequence of atom names of Alignment.start/.end equal the input files'",
     C_FINITE: "every coordinate of Alignment.start/.end is finite",
     C_DET: "a fresh Alignment of the same molecules with the same np.random.seed gives bit-identical coordinates",
     C_CALLER: "the Molecule objects passed to Alignment(start=, end=) / the setters keep their coordinates, names, residue names/numbers and atom ids",
@@ -99,8 +105,11 @@ def bounded_info():
             "the mobile molecule has >= 2 atoms); ignore_hydrogens on/off; seeds; three ways of handing the molecules over (constructor, "
             "setters in reverse order, setters re-assigned over a previous pair). Cyclic mobile molecules (tree plus 1-2 extra bonds) "
             "only with type 2 disabled and only the all-pairwise clause. Thorough adds the shipped BF4 and BMIM CG/AA pairs both ways "
-            "round. Each run evaluates: larger molecule only translated (start) / bit-identical (end), bonded distances of the mobile "
-            "molecule (acyclic), all pairwise distances (no single-atom moves), names/order/ids, finiteness, caller objects unmodified; "
+            "round. Each run evaluates: larger molecule only translated by one common vector (start) / bit-identical (end), bonded distances "
+            "of the mobile molecule (acyclic), all pairwise distances (no single-atom moves), atom count and name sequence, finiteness, "
+            "caller objects unmodified. Informational only (mismatch => undecided, never a violation, because the statement does not fix "
+            "them): the translation vector being centre(end)-centre(start), a one-atom end staying untouched, residue names/numbers and "
+            "atom ids of Alignment.start/.end; "
             "one run per option combination is repeated on a fresh Alignment (fresh Molecule objects read from the same files) for "
             "bit-identical determinism. Quick: combination k runs seed k mod 3 (+ its repeat), every 4th combination runs seeds 0..2; "
             "thorough: every combination runs seeds 0..4, three tree instances per size pair. A run whose optimiser exceeds the "
@@ -617,8 +626,14 @@ def run_case(case, paths=None, other_seed_repeat=False):
             obs["callers"] += [("previous start", _snap(extra[0]), extra_before[0]), ("previous end", _snap(extra[1]), extra_before[1])]
         if case.get("repeat") and obs["exc"] is None:
             S3, E3 = _load(paths["start"], case["start"]), _load(paths["end"], case["end"])
+            extra3 = None
+            if case["scenario"] == "reset":
+                S4, E4 = _load(paths["start"], case["start"]), _load(paths["end"], case["end"])
+                S4.atoms_positions = S4.atoms_positions + np.array([0.25, -0.5, 0.125])
+                E4.atoms_positions = E4.atoms_positions + np.array([-1.0, 0.5, 0.75])
+                extra3 = (S4, E4)
             try:
-                ali2 = Alignment(start=S3, end=E3)
+                ali2 = _build(Alignment, case["scenario"], S3, E3, extra3)      # same inputs, handed over the same way
                 _align(ali2, case, case["seed"] + (1 if other_seed_repeat else 0))
                 obs["A2"], _ = _snap(ali2.start)
                 obs["B2"], _ = _snap(ali2.end)
@@ -684,11 +699,11 @@ def _same_bits(X0, X1):
 
 def applicable(case):
     ns, ne = len(case["start"]["names"]), len(case["end"]["names"])
-    cl = [C_RETURNS, C_NAMES, C_FINITE, C_CALLER]
+    cl = [C_RETURNS, C_NAMES, I_LABELS, C_FINITE, C_CALLER]
+    cl += [C_START_TR, I_CENTRE] if ns >= ne else [C_END_UNT]
     if ne == 1:
-        cl.append(C_EARLY)
+        cl.append(I_EARLY_END)
     else:
-        cl.append(C_START_TR if ns >= ne else C_END_UNT)
         mob = case["start"] if ns < ne else case["end"]
         types = case["types"]
         eff = types if types is not None else ([0] if min(ns, ne) == 1 else [0, 1, 2])
@@ -726,16 +741,23 @@ def check_clauses(case, obs):
     A1, B1 = obs["A1"], obs["B1"]
     nt[C_CALLER] = bool(_same_bits(S0, A1) or _same_bits(E0, B1))
     # names / order
-    msgs = []
+    msgs, imsgs = [], []
     for who, atoms, spec in (("start", obs["atomsA"], case["start"]), ("end", obs["atomsB"], case["end"])):
         want = _oracle_atoms(spec)
-        if atoms != want:
-            k = next((i for i, (a, b) in enumerate(zip(atoms, want)) if a != b), min(len(atoms), len(want)))
-            msgs.append(f"Alignment.{who}: {len(atoms)} atoms, atom {k} is {atoms[k] if k < len(atoms) else None}, "
-                        f"input has {len(want)} atoms, atom {k} {want[k] if k < len(want) else None}")
+        got_n, want_n = [a[0] for a in atoms], [a[0] for a in want]
+        if got_n != want_n:
+            k = next((i for i, (a, b) in enumerate(zip(got_n, want_n)) if a != b), min(len(got_n), len(want_n)))
+            msgs.append(f"Alignment.{who}: {len(got_n)} atoms, atom {k} is named {got_n[k] if k < len(got_n) else None}; "
+                        f"input has {len(want_n)} atoms, atom {k} named {want_n[k] if k < len(want_n) else None}")
+        elif atoms != want:
+            k = next(i for i, (a, b) in enumerate(zip(atoms, want)) if a != b)
+            imsgs.append(f"Alignment.{who}: atom {k} is (name, residue, resid, id) {atoms[k]}, input {want[k]}")
     if msgs:
         fail[C_NAMES] = "; ".join(msgs)
+    if imsgs:
+        fail[I_LABELS] = "; ".join(imsgs)
     nt[C_NAMES] = max(ns, ne) >= 2
+    nt[I_LABELS] = max(ns, ne) >= 2
     # finite
     bad = [(w, int(np.argwhere(~np.isfinite(X))[0][0])) for w, X in (("start", A1), ("end", B1)) if not np.all(np.isfinite(X))]
     if bad:
@@ -746,19 +768,26 @@ def check_clauses(case, obs):
     moved = float(np.linalg.norm(v)) > 1e-6
     if A1.shape != S0.shape or B1.shape != E0.shape:
         for c in cl:
-            if c in (C_EARLY, C_START_TR, C_END_UNT, C_BONDS, C_RIGID):
+            if c in (C_START_TR, C_END_UNT, C_BONDS, C_RIGID):
                 fail[c] = f"coordinate arrays have shapes {A1.shape}, {B1.shape} instead of {S0.shape}, {E0.shape}"
         return fail, nt
-    if C_EARLY in cl:
-        m1, m2 = _translated(S0, A1, v), _same_bits(E0, B1)
-        if m1 or m2:
-            fail[C_EARLY] = "; ".join(x for x in (m1 and "start: " + m1, m2 and "end: " + m2) if x)
-        nt[C_EARLY] = moved
     if C_START_TR in cl:
-        m = _translated(S0, A1, v)
+        with np.errstate(all="ignore"):
+            v_obs = (A1 - S0).mean(axis=0)          # the common vector, if there is one
+        m = _translated(S0, A1, v_obs) if np.all(np.isfinite(v_obs)) else "non-finite coordinates"
         if m:
-            fail[C_START_TR] = "start: " + m
+            fail[C_START_TR] = "start is not the input plus one common vector: " + m
+        else:
+            mi = _translated(S0, A1, v)
+            if mi:
+                fail[I_CENTRE] = f"start was translated by {v_obs.tolist()}, centre(end) - centre(start) is {v.tolist()}"
         nt[C_START_TR] = moved
+        nt[I_CENTRE] = moved
+    if I_EARLY_END in cl:
+        m = _same_bits(E0, B1)
+        if m:
+            fail[I_EARLY_END] = "end: " + m
+        nt[I_EARLY_END] = True
     if C_END_UNT in cl:
         m = _same_bits(E0, B1)
         if m:
@@ -848,6 +877,10 @@ def corrupt_obs(case, obs, how):
         at = list(o["atomsB"] if ne >= 2 else o["atomsA"])
         at[0], at[1] = at[1], at[0]
         o["atomsB" if ne >= 2 else "atomsA"] = at
+    elif how == "labels_changed":
+        at = list(o["atomsB"])
+        at[0] = (at[0][0], at[0][1], at[0][2] + 1, at[0][3] + 7)
+        o["atomsB"] = at
     elif how == "nan":
         X = o[mk].copy()
         X[0, 0] = np.nan
@@ -940,7 +973,12 @@ class Collector:
         for c, s in self.st.items():
             fn = FN_CLASS if c == C_CALLER else FN_ALIGN
             oid = f"{PROP}/{fn}/{c}/{self.family}"
-            if s["first"] is not None:
+            if s["first"] is not None and c in INFORMATIONAL:
+                case, msg = s["first"]
+                out.append(ob(oid, "undecided", kind="bounded", engine="smallscope", backend="runtime-contract",
+                              reason=f"informational, not demanded by the statement: {s['nfail']}/{s['n']} runs: {msg} -- {EXPECT[c]}; "
+                                     f"case {short(case)}", sample=short(case), evaluations=s["n"], nontrivial=s["nt"]))
+            elif s["first"] is not None:
                 case, msg = s["first"]
                 out.append(ob(oid, "refuted", kind="bounded", engine="smallscope", backend="runtime-contract", secs=secs / max(1, len(self.st)),
                               reason=f"{s['nfail']}/{s['n']} runs violate the clause; first: {msg} -- expected: {EXPECT[c]}",
@@ -1086,9 +1124,11 @@ GUARDS = [
     ("larger_one_ulp", C_END_UNT, (3, 5), [0, 1, 2], C_BONDS),
     ("larger_one_atom_shifted", C_START_TR, (5, 3), [0, 1, 2], C_BONDS),
     ("larger_one_atom_shifted", C_START_TR, (4, 4), [0, 1], C_RIGID),
-    ("start_not_translated", C_START_TR, (5, 3), [0, 1], C_RIGID),
-    ("start_not_translated", C_EARLY, (4, 1), [0], None),
-    ("end_translated_instead", C_EARLY, (4, 1), [0], None),
+    ("start_not_translated", I_CENTRE, (5, 3), [0, 1], C_START_TR),      # zero translation is still "only translated"
+    ("start_not_translated", I_CENTRE, (4, 1), [0], C_START_TR),
+    ("end_translated_instead", I_EARLY_END, (4, 1), [0], C_START_TR),
+    ("larger_one_atom_shifted", C_START_TR, (4, 1), [0], None),
+    ("labels_changed", I_LABELS, (5, 3), [0, 1, 2], C_NAMES),
     ("end_translated_instead", C_END_UNT, (2, 6), [0, 1], None),
     ("mobile_bond_stretched", C_BONDS, (6, 4), [0, 1, 2], C_START_TR),
     ("mobile_bond_stretched", C_BONDS, (3, 6), [2], C_END_UNT),
